@@ -1,5 +1,6 @@
 """C19 - KlattGrid and point-object files round-trip every number exactly."""
 import contextlib
+import math
 import io
 import os
 
@@ -503,7 +504,15 @@ def rand_points(rng, hi, nmax=5, lo=0):
     n = rng.randrange(0, nmax + 1)
     w = hi - lo
     ts = sorted({rng.choice([lo + rng.uniform(0, w), lo + rng.randrange(0, int(w * 1000)) / 1000, lo + rng.randrange(0, int(w * 8)) / 8]) for _ in range(n)})
-    return [(t, rand_value(rng)) for t in ts if lo <= t <= hi]
+    pts = [(t, rand_value(rng)) for t in ts if lo <= t <= hi]
+    if pts and rng.random() < 0.06:
+        # the very same point listed twice (two different values at one time would come back ordered by value - the reader sorts -,
+        # which a value-reversing modification turns round: the order among such points is left out of the comparison by not making them)
+        j = rng.randrange(len(pts))
+        t, v = pts[j]
+        pts[j:j + 1] = [(t, v), (t, v)]
+        REC.cls("C19:kg:two-points-at-one-time")
+    return pts
 
 
 def rand_spec(rng):
